@@ -146,8 +146,27 @@ def run(chk):
         par = oqupy.TempoParameters(dt=0.1, epsrel=eps, dkmax=dkmax, add_correlation_time=rng.choice([None, 0.2]) if dkmax else None)
         bath = oqupy.Bath(O, _corr)
         method = rng.choice(["tempo", "pttempo", "meanfield", "meanfield"])
+        tend = 0.4
         if it < 3:
             method = "meanfield"      # every run has several-species cases with permuted / rotated copies of one spectrum
+        if it in (3, 4):
+            # every run (PT-TEMPO, TEMPO): a repeated coupling eigenvalue, a memory cut-off with an additional correlation time and a
+            # run well beyond the cut-off (the closing cells are requested at several distances)
+            method, d = ["pttempo", "tempo"][it - 3], 3
+            o = rng.choice([[1.0, 1.0, 2.0], [0.5, -1.0, 0.5], [0.0, 0.0, 1.0]])
+            O = np.diag(o).astype(complex)
+            if rot:
+                z = np.array([[rng.gauss(0, 1) + 1j * rng.gauss(0, 1) for _ in range(d)] for _ in range(d)])
+                q, _ = np.linalg.qr(z)
+                O = q @ O @ q.conj().T
+                O = (O + O.conj().T) / 2
+            a = np.array([[rng.gauss(0, 1) + 1j * rng.gauss(0, 1) for _ in range(d)] for _ in range(d)])
+            H = (a + a.conj().T) / 4
+            r = a @ a.conj().T
+            rho0 = r / np.trace(r)
+            dkmax, tend = 2, 0.8
+            par = oqupy.TempoParameters(dt=0.1, epsrel=eps, dkmax=dkmax, add_correlation_time=rng.choice([0.25, 0.5]))
+            bath = oqupy.Bath(O, _corr)
         info = {"kind": "api", "method": method, "o": o, "rotated": rot, "dkmax": dkmax}
         mf_baths = [bath]
         if method == "meanfield":
@@ -172,9 +191,9 @@ def run(chk):
         try:
             for unique in (False, True):
                 if method == "tempo":
-                    res.append(np.array(quiet(oqupy.Tempo(oqupy.System(H), bath, par, rho0, 0.0, unique=unique).compute, 0.4, progress_type="silent").states))
+                    res.append(np.array(quiet(oqupy.Tempo(oqupy.System(H), bath, par, rho0, 0.0, unique=unique).compute, tend, progress_type="silent").states))
                 elif method == "pttempo":
-                    pt = quiet(oqupy.pt_tempo_compute, bath, 0.0, 0.4, parameters=par, unique=unique, progress_type="silent")
+                    pt = quiet(oqupy.pt_tempo_compute, bath, 0.0, tend, parameters=par, unique=unique, progress_type="silent")
                     res.append(np.array(quiet(oqupy.compute_dynamics, oqupy.System(H), initial_state=rho0, process_tensor=pt, progress_type="silent").states))
                 else:
                     # several species, each with its own bath: the same spectrum in a different order / basis (same number
